@@ -10,7 +10,8 @@ from vlib.model import p64, u64
 
 PROPERTY = 'C15'
 LEVEL = 'exploration'
-TECH = 'model-based PBT: generated histories x every historical bound (at/before, raw tid/datetime) with live commits and packs while open'
+TECH = ('model-based PBT: generated histories (file, mapping, blob storages; continued in a DemoStorage; multi-database) x every historical '
+        'bound (at/before, raw tid, naive and aware datetimes) with live commits and packs while open')
 RULE = ('cases = generated histories through DB/Connection (changes, creations, removals from the root, un-creations by '
         'undo) on FileStorage and MappingStorage, optionally continued in the changes of a DemoStorage wrapped around them, '
         'optionally with an object in a second database of a multi-database, with the harness clock; for EVERY transaction id t: at=t, at=t+1, before=t, '
